@@ -555,7 +555,7 @@ def compare_pair(
             longest_block_positions = block_positions
             # TODO: extend to polyploid
             if ploidy == 2:
-                if hamming(phasing0, phasing1) < hamming(phasing0[0], complement(phasing1[0])):
+                if hamming(phasing0[0], phasing1[0]) < hamming(phasing0[0], complement(phasing1[0])):
                     longest_block_agreement = [
                         1 * (p0 == p1) for p0, p1 in zip(phasing0[0], phasing1[0])
                     ]
